@@ -66,6 +66,32 @@ void run_C01(Ctx &cx) {
   const size_t c = VH_CHUNK;
   const size_t nmax = 5 * c + 17;
   std::vector<int> Ts = tset(cx.thorough);
+  // more chunks than workers also for the LARGEST thread counts (every worker gets at least one chunk, some two)
+  for (int T : {13, 15, 16})
+    for (size_t k : {(size_t)T - 1, (size_t)T, (size_t)T + 1, (size_t)T + 2})
+      for (int d = -17; d <= 1; d += 6)
+        for (int cmode = 0; cmode < 5; cmode++) {
+          if (!cx.take()) continue;
+          vh::Rng r = cx.case_rng();
+          ops::EncParams ep;
+          ep.cmode = cmode; ep.hmode = (int)r.below(3); ep.T = T;
+          r.fill(ep.key, 16);
+          ep.seed = ops::gen_seed(r);
+          size_t n = (size_t)((long)(k * c) + d);
+          uint64_t pseed = r.next();
+          bytes P = ops::gen_plain(n, pseed);
+          std::string desc = ops::params_json(n, ep, pseed);
+          cx.begin(desc);
+          ops::Result e = ops::encrypt(P, ep);
+          cx.rep.count("encrypts");
+          if (!e.ret) { cx.rep.violation("C01|encrypt-returned-false", "execute_encrypt returned false", desc); continue; }
+          ops::Result dd = ops::decrypt(e.out, ep.key, ep.T);
+          cx.rep.count("decrypts");
+          cx.rep.count("many_chunks_large_T");
+          if (!dd.ret) cx.rep.violation("C01|decrypt-returned-false", "decrypt of a genuine file returned false", desc);
+          else if (dd.out != P) cx.rep.violation(dd.out.size() != P.size() ? "C01|roundtrip-length-differs" : "C01|roundtrip-bytes-differ", "decrypt(encrypt(P)) != P", desc);
+          else { cx.rep.count("roundtrips_ok"); cx.rep.dist("class", vh::tuple_hash({(long long)(n % 16), (long long)k, 3, cmode, ep.hmode, T})); }
+        }
   for (size_t n = 0; n <= nmax; n++)
     for (int cmode = 0; cmode < 5; cmode++)
       for (size_t ti = 0; ti < Ts.size(); ti++) {
